@@ -146,6 +146,9 @@ class iindex(dict):
         except AttributeError:
             return False
 
+    def __ne__(self, other):
+        return not self.__eq__(other)
+
     def validate(self, check_comprehensive_unique=False):
         """Raise ValueError if self is not well-formed.
 
